@@ -420,7 +420,7 @@ pub fn process<I: BufRead, O: Write>(
                 let mut s = remaining.split("//").next().unwrap().splitn(2, "/*");
                 // Is there a string start before that point ?
                 let s2 = s.next().unwrap();
-                if !s2.starts_with("#include") && !asm {
+                if !s2.trim_start().starts_with("#include") && !asm {
                     // (a double quote that is a character constant, '"' or '\"', starts nothing)
                     let string_start = s2.match_indices('"').map(|(i, _)| i).find(|i| {
                         let before = &s2[..*i];
